@@ -247,6 +247,14 @@ class FakeSerial:
         except OSError as e:
             import serial
             raise serial.SerialException(str(e))
+        if getattr(self.fw, "sync_reply", False):
+            # a device that answers at once and a sender thread that is
+            # preempted right after the write: the reply has been read and
+            # handled by the reader thread before write() returns
+            t0 = time.time()
+            while self.fw.pending() and time.time() - t0 < 0.05:
+                time.sleep(0.0003)
+            time.sleep(0.001)
         return len(data)
 
     def flush(self):
